@@ -392,7 +392,19 @@ func (c c18) Run(e *Env, cs *Case) (*Outcome, error) {
 				keyParts = append(keyParts, fmt.Sprintf("%s@%s[%s]%s", cr.Kind, last.Site, last.Op, cr.Cut))
 			}
 			if cr.Kind == "kill-trunc-link" {
+				// The file `go build -o` was writing, as declared on its command line.
 				linkPath = filepath.Join(w.GarbleCache, "tool", "link")
+				for i := len(s.Log) - 1; i >= 0; i-- {
+					le := s.Log[i]
+					if le.Proc == last.Proc && le.Msg.T == "ev" && le.Msg.Op == "exec" {
+						for j, a := range le.Msg.Args {
+							if a == "-o" && j+1 < len(le.Msg.Args) {
+								linkPath = le.Msg.Args[j+1]
+							}
+						}
+						break
+					}
+				}
 				if fi, err := os.Stat(linkPath); err == nil {
 					os.Truncate(linkPath, cutBytes(cr.Cut, fi.Size()))
 					o.Faults["trunc-link"]++
